@@ -19,7 +19,7 @@ x/staking/keeper/{delegation,slash}.go, x/staking/types/validator.go); `transfer
 `go/extract/c11.go` reads off that function's AST.
 -/
 namespace FxVerif.Model.C11
-open FxVerif.Gen.C11 (Cfg Party SE PE Simple Cond Stmt)
+open FxVerif.Gen.C11 (Cfg Party SE PE Simple Cond Stmt Wrapper)
 
 /-- 10^18: one unit of `LegacyDec` -/
 def ONE : Nat := 1000000000000000000
@@ -64,12 +64,23 @@ def refProg : List Stmt :=
        .writeInfo .to .to]
       [.readInfo .to, .setStake .to (.tfsTrunc (.shares .to)), .writeInfo .to .to] ]
 
+/-- how the model reads the five thin wrappers (`State.exec`: `.delegate d v amt` is staking `Delegate` for the
+caller `d` at `args.Validator` with `args.Amount`, …, `.approve owner spender v shares` sets the allowance of the
+caller); a failing SDK call fails the transaction (`step` reverts) -/
+def wrappersRef : List Wrapper :=
+  [ ⟨"DelegateV2Method", "stakingMsgServer.Delegate", "caller", "args.Validator", "", "args.Amount", true, true⟩,
+    ⟨"UndelegateV2Method", "stakingMsgServer.Undelegate", "caller", "args.Validator", "", "args.Amount", true, true⟩,
+    ⟨"RedelegateMethodV2", "stakingMsgServer.BeginRedelegate", "caller", "args.ValidatorSrc", "args.ValidatorDst", "args.Amount",
+      true, true⟩,
+    ⟨"WithdrawMethod", "distrMsgServer.WithdrawDelegatorReward", "caller", "args.Validator", "", "", true, true⟩,
+    ⟨"ApproveSharesMethod", "stakingKeeper.SetAllowance", "caller", "args.Validator", "args.Spender", "args.Shares", true, true⟩ ]
+
 /-- what the property needs of the code facts -/
 def good (c : Cfg) : Bool :=
   c.selfGuard && c.refuseRecvRedel && c.sharesCmp == "LT" && c.withdrawFrom && c.toLookupBeforeFromWrite &&
   c.withdrawTo && c.incPeriodForNewTo && c.decRefOnRemoval && c.delInfoOnRemoval && c.incRefForNewTo &&
   c.newToPeriodOffset == 1 && c.allowanceCheck && c.allowanceSubDecrease && c.transferFromArgs && c.sharesPositive &&
-  c.prog == refProg
+  c.prog == refProg && c.wrappers == wrappersRef
 
 inductive Err
   | noValidator | noDelegation | recvRedel | insufficient | allowance | badArgs
